@@ -582,9 +582,6 @@ WITNESSES = {
         enc="none", raws=[dict(name="a", type="UINT8", vals=list(range(200)))],
         derived=[dict(name="q", kind="P", shift=-3, **{"in": "a"})],
         ops=[("g", "q", 0, 5, "i64"), ("g", "q", 0, 2, "i64"), ("r",)]),
-    "C02/sie/read-starting-past-eof": dict(
-        enc="sie", raws=[dict(name="a", type="UINT8", vals=[v // 3 for v in range(30)])],
-        ops=[("g", "a", 31, 2, "i64"), ("g", "a", 27, 2, "i64")]),
 }
 
 
@@ -677,7 +674,7 @@ def main():
             chk.notes.append("witness %s no longer fails although the translator says the site is unrepaired" % key)
 
     # ---- 2. generated histories
-    ncases = 700 if not chk.thorough else 12000
+    ncases = 2500 if not chk.thorough else 40000
     t_end = time.time() + (100 if not chk.thorough else 1500)
     from concurrent.futures import ThreadPoolExecutor
     cases = [gen_case(rng) for _ in range(ncases)]
